@@ -82,6 +82,7 @@ def register(reg):
     register_exist(reg)
     register_nodes(reg)
     register_get_branch(reg)
+    register_witness(reg)
     reg.add("binary_branches", Contract(MOD + ":if_branch_valid", ["branch", "root_hash", "key", "value"], ibv_cases,
                                         setup=ibv_setup, props=("C13",), callee=False,
                                         loops={0: LoopSpec(lambda E, fr, i: [], fresh={"node": "unbound"})}))
@@ -204,7 +205,7 @@ def gtn_requires(E, ctx):
 
 def register_nodes(reg):
     g = "binary_branches"
-    reg.add(g, Contract(MOD + ":get_trie_nodes", ["db", "node_hash"], gtn_cases, setup=gtn_setup, requires=gtn_requires,
+    reg.add(g, Contract(MOD + ":get_trie_nodes", ["db", "node_hash"], gtn2_cases, setup=gtn_setup, requires=gtn_requires,
                         props=("C13",)))
 
 
@@ -328,3 +329,141 @@ def register_get_branch(reg):
                         requires=gb_requires, props=("C13",)))
     reg.add(g, Contract(MOD + ":get_branch", ["db", "root_hash", "key"], gb_api_cases, setup=gb_api_setup,
                         props=("C13",), callee=False))
+
+
+# ---------------------------------------------------------------------------------------------------
+# get_trie_nodes suffices for every lookup below its root; get_witness_for_key_prefix
+#
+# Ghost: HG (an arbitrary set of available hashes, above) and KG (an arbitrary bit string).
+
+KG = z3.Const("KG!ghost", SeqI)
+
+
+def gtn_sufficient_clause(E, H, h, k=None):
+    """if the store H holds every node the lookup of k below h dereferences, and HG holds (the hashes of) all the
+    bodies get_trie_nodes(H, h) returns, then HG holds every node that lookup dereferences"""
+    k = KG if k is None else k
+    return z3.Implies(z3.And(BM.bavail(H, h, k), allin(HG, bnodes(H, h))), BM.bavail(HG, h, k))
+
+
+def unfold_allin_concat(E, H, a, b):
+    """allin distributes over concatenation (definition of allin: every element)"""
+    E.assume(mk_bool(allin(H, z3.Concat(a, b)) == z3.And(allin(H, a), allin(H, b))))
+
+
+def gtn2_cases(E, ctx):
+    H = ctx.old_has(ctx.db)
+    h = ops.seq_term_as(ctx.node_hash, "int")
+    unfold_bnodes(E, H, h)
+    unit_mode = hasattr(ctx, "outcome")
+    P = BM.parts_of(E, h)
+
+    def ens(r):
+        me = BM.unk(h)
+        BM.unfold_bavail(E, H, h, KG)
+        BM.unfold_bavail(E, HG, h, KG)
+        rest_kv = BM.tail(KG, z3.Length(P.path))
+        unfold_allin(E, HG, me, bnodes(H, P.child))
+        unfold_allin(E, HG, me, z3.Concat(bnodes(H, P.left), bnodes(H, P.right)))
+        unfold_allin_concat(E, HG, bnodes(H, P.left), bnodes(H, P.right))
+        for (H2, h2) in E.ghost.get("gtn_rules", []):
+            for kk in (rest_kv, BM.tail(KG, 1)):                     # the callee's clause, at the rest of the key
+                E.assume(mk_bool(gtn_sufficient_clause(E, H2, h2, k=kk)))
+        return [("nodes-suffice-for-every-lookup-below", mk_bool(gtn_sufficient_clause(E, H, h)))]
+
+    def make():
+        # callee view: the same clause at the keys a caller continues with (rule, instantiated on demand)
+        E.ghost.setdefault("gtn_rules", []).append((H, h))
+        E.assume(mk_bool(gtn_sufficient_clause(E, H, h)))
+        return SSeq(bnodes(H, h), "tuple", "bytes")
+    return [Case("nodes", returns=(lambda: SSeq(bnodes(H, h), "tuple", "bytes")) if unit_mode else None,
+                 ensures=ens if unit_mode else None, make=None if unit_mode else make)]
+
+
+def unfold_allin_term(E, H, t, depth=6):
+    """definition of allin along the structure of the tuple term t (concatenations, one-element tuples, conditionals)"""
+    t = z3.simplify(t)
+    if depth <= 0 or not z3.is_app(t):
+        return
+    k = t.decl().kind()
+    if k == z3.Z3_OP_SEQ_CONCAT:
+        parts = t.children()
+        E.assume(mk_bool(allin(H, t) == z3.And(*[allin(H, p) for p in parts])))
+        for p in parts:
+            unfold_allin_term(E, H, p, depth - 1)
+    elif k == z3.Z3_OP_SEQ_UNIT:
+        E.assume(mk_bool(allin(H, t) == z3.Select(H, specfn.keccak(t.arg(0)))))
+    elif k == z3.Z3_OP_SEQ_EMPTY:
+        E.assume(mk_bool(allin(H, t)))
+    elif k == z3.Z3_OP_ITE:
+        E.assume(mk_bool(allin(H, t) == z3.If(t.arg(0), allin(H, t.arg(1)), allin(H, t.arg(2)))))
+        unfold_allin_term(E, H, t.arg(1), depth - 1)
+        unfold_allin_term(E, H, t.arg(2), depth - 1)
+
+
+def gw_setup(E):
+    from contracts.binary_c import bits
+    E.ghost["adt_nodes"] = True
+    db = E.fresh_dict("db", "bytes", "bytes")
+    db.hooks = BM.BinDbInvariant()
+    kp = bits(E, "keypath")
+    E.assume(mk_bool(z3.PrefixOf(kp.t, KG)))          # the ghost key is any key that starts with the prefix
+    return {"db": db, "node_hash": objs.hash32(E, "node_hash"), "keypath": kp}
+
+
+def gw_cases(E, ctx):
+    H = ctx.old_has(ctx.db)
+    h = ops.seq_term_as(ctx.node_hash, "int")
+    p = ops.seq_term_as(ctx.keypath, "int")
+    unit_mode = hasattr(ctx, "outcome")
+    P = BM.parts_of(E, h)
+    ike = objs.exc(E, "InvalidKeyError")
+
+    def clause(W, k):
+        return z3.Implies(z3.And(z3.PrefixOf(p, k), BM.bavail(H, h, k), allin(HG, W)), BM.bavail(HG, h, k))
+
+    def ens(r):
+        from pyvc import interp as _I
+        if isinstance(r, _I._GenOutIter):
+            r = r.seq
+        elif isinstance(r, _I.GenIter):
+            r = tuple(r.items)
+        W = ops.seq_term(r) if not isinstance(r, tuple) or r else z3.Empty(SeqSeqI)
+        unfold_allin_term(E, HG, W)
+        BM.unfold_bavail(E, H, h, KG)
+        BM.unfold_bavail(E, HG, h, KG)
+        from contracts import seqlemmas as SL
+        SL.use(E, "prefix_is_slice", P.path, KG)
+        SL.use(E, "prefix_is_slice", P.path, p)
+        SL.use(E, "prefix_trans", p, P.path, KG) if "prefix_trans" in SL.ALL else None
+        rest_kv, rest_1 = BM.tail(KG, z3.Length(P.path)), BM.tail(KG, 1)
+        for (H2, h2) in E.ghost.get("gtn_rules", []):
+            for kk in (KG, rest_kv, rest_1):
+                E.assume(mk_bool(gtn_sufficient_clause(E, H2, h2, k=kk)))
+        for (W2, H2, h2, p2) in E.ghost.get("gw_rules", []):
+            for kk in (rest_kv, rest_1):
+                E.assume(mk_bool(z3.Implies(z3.And(z3.PrefixOf(p2, kk), BM.bavail(H2, h2, kk), allin(HG, W2)),
+                                            BM.bavail(HG, h2, kk))))
+        return [("the-witness-suffices-for-every-key-below-the-prefix", mk_bool(clause(W, KG)))]
+
+    def make():
+        W = E.fresh_seq("witness", "tuple", "bytes")
+        E.ghost.setdefault("gw_rules", []).append((W.t, H, h, p))
+        return W
+    return [Case("witness", ensures=ens if unit_mode else None, make=None if unit_mode else make),
+            Case("refused", raises=ike), Case("missing-node", raises=KeyError)]
+
+
+def gw_requires(E, ctx):
+    from contracts.binaries_c import allbit_of
+    side = []
+    ok = allbit_of(ops.seq_term_as(ctx.keypath, "int"), side)
+    for f in side:
+        E.assume(mk_bool(f))
+    return [("hash-is-32-bytes", mk_bool(z3.Length(ops.seq_term_as(ctx.node_hash, "int")) == 32)),
+            ("prefix-is-a-bit-string", mk_bool(ok))]
+
+
+def register_witness(reg):
+    reg.add("binary_branches", Contract(MOD + ":_get_witness_for_key_prefix", ["db", "node_hash", "keypath"], gw_cases,
+                                        setup=gw_setup, requires=gw_requires, props=("C13",)))
